@@ -584,7 +584,8 @@ Definition mss_ok (g : guard) (cand : store) : bool :=
      (req <=? m16)%Z)
   end.
 (* GetSVLANs / GetCVLAN for single numbers: 1..4094; cvlan "" / "any" = wildcard; anything else is an error
-   and ValidateMatchIndex SKIPS the entry (ranges "a-b" are C14's subject and are not generated here) *)
+   and, since /repo 461c9d7, ValidateMatchIndex REJECTS the configuration (before that it skipped the entry);
+   ranges "a-b" are C14's subject and are not generated here *)
 Definition vlan_of (s : list N) : option Z :=
   match parse_digits s with
   | Some z => if ((1 <=? z) && (z <=? 4094))%Z then Some z else None
@@ -615,8 +616,12 @@ Fixpoint has_dup (l : list (option sval * option sval)) : bool :=
   | [] => false
   | x :: r => existsb (claim_eqb x) r || has_dup r
   end.
+Definition range_bad (g : guard) (cand : store) : bool :=
+  existsb (fun c => match get_leaf cand (c ++ [g_sv g]) with
+                    | Some sv => match claim_of (Some sv) (get_leaf cand (c ++ [g_cv g])) with [] => true | _ => false end
+                    | None => false end) (conts cand).
 Definition precommit_ok (g : guard) (cand : store) : bool :=
-  mss_ok g cand && negb (has_dup (claims g cand)).
+  mss_ok g cand && negb (range_bad g cand) && negb (has_dup (claims g cand)).
 
 (* ---------- what SaveYAML(scrubPersistedConfig(cfg)) leaves in the startup file ---------- *)
 Fixpoint is_prefix_b (c p : path) : bool :=
